@@ -256,6 +256,11 @@ type wres struct {
 	err      error
 	from     int // len(units) when the call started
 	rejected bool
+	// sig: the first eight bytes of the packet as marshalled (RTP: flags, payload type, sequence
+	// number, timestamp = marker; RTCP: header, SSRC = marker). What identifies the packet on the
+	// wire: the four marker bytes alone also turn up in reports the library writes by itself
+	// (an SSRC drawn at random that ends in C1 8E in front of two zero loss fields: once in 2^16 runs)
+	sig []byte
 }
 
 func run(t *testing.T, sc Scenario) *core.Result {
@@ -537,6 +542,9 @@ func drive(w *sys.World, sc *Scenario, ob *observer, results []wres) {
 			continue
 		}
 		r.plain = len(plain)
+		if len(plain) >= 8 {
+			r.sig = append([]byte(nil), plain[:8]...)
+		}
 		r.wire = len(plain) + sc.overhead(wr)
 		r.max = sc.originMax(wr)
 
@@ -593,7 +601,7 @@ func drive(w *sys.World, sc *Scenario, ob *observer, results []wres) {
 			r.rejected = true
 			w.Probe("oversize_rejected")
 			if !enc {
-				if u := findMarker(newUnits, r.origin, i); u != nil {
+				if u := findMarker(newUnits, r.origin, i, r.sig); u != nil {
 					w.Fail("c18/rejected-transmitted "+ep, "%s returned %q for a %d-byte %s packet (maximum %d) yet a %s of %d bytes carrying it left %s; %s",
 						entryName(wr), r.err, r.plain, kindName(isRTCP), r.max, carrier(u), u.n, r.origin, ob.describeWrite(i))
 					return
@@ -607,7 +615,7 @@ func drive(w *sys.World, sc *Scenario, ob *observer, results []wres) {
 		if !over && r.err == nil {
 			// bookkeeping, and a self-check of the overhead model used to decide "would exceed"
 			if !enc {
-				if u := findMarker(newUnits, r.origin, i); u != nil {
+				if u := findMarker(newUnits, r.origin, i, r.sig); u != nil {
 					w.Probe("accepted_seen_on_wire")
 				}
 			} else if !autoRTCP && after != before {
@@ -684,8 +692,11 @@ func carrier(u *unit) string {
 	return "UDP datagram"
 }
 
-func findMarker(units []*unit, origin string, idx int) *unit {
+func findMarker(units []*unit, origin string, idx int, sig []byte) *unit {
 	m := marker(idx)
+	if len(sig) == 8 && bytes.Equal(sig[4:], m) {
+		m = sig
+	}
 	for _, u := range units {
 		if u.origin == origin && bytes.Contains(u.data, m) {
 			return u
@@ -716,7 +727,7 @@ func finish(w *sys.World, sc *Scenario, ob *observer, results []wres, summary ma
 		if r.rejected {
 			rej++
 			if !sc.encrypted(sc.Writes[i]) && !w.Failed() {
-				if u := findMarker(units[r.from:], r.origin, i); u != nil {
+				if u := findMarker(units[r.from:], r.origin, i, r.sig); u != nil {
 					w.Fail("c18/rejected-transmitted "+sc.Writes[i].Entry, "%s returned %q for a %d-byte packet (maximum %d) yet a %s of %d bytes carrying it left %s later in the run; %s",
 						entryName(sc.Writes[i]), r.err, r.plain, r.max, carrier(u), u.n, r.origin, ob.describeWrite(i))
 				}
